@@ -15,6 +15,10 @@ namespace OP2Utility::Stream
 	void DynamicMemoryWriter::WriteImplementation(const void* buffer, std::size_t size)
 	{
 		auto streamSize = streamBuffer.size();
+		// Note: streamSize + size may wrap around to a small value
+		if (size > std::numeric_limits<SizeType>::max() - streamSize) {
+			throw std::runtime_error("Write beyond stream size limit");
+		}
 		streamBuffer.resize(streamSize + size);
 		std::memcpy(streamBuffer.data() + streamSize, buffer, size);
 	}
